@@ -88,15 +88,33 @@ class Fold:
     def _fold(self, iterator):
         ret, op = self.init(), self.op
 
-        for v in iterator:
-            ret = op(ret, v)
+        if op is not operator.iadd:
+            for v in iterator:
+                ret = op(ret, v)
+            return ret
 
+        # the default, in-place op is only for an accumulator the fold owns:
+        # init() + element may be the element itself (__radd__ returning self
+        # for 0, to support sum()), which belongs to the input
+        owned = True
+        for v in iterator:
+            ret, owned = self._iadd_owned(ret, v, owned)
         return ret
+
+    @staticmethod
+    def _iadd_owned(acc, v, owned):
+        ret = operator.iadd(acc, v) if owned else operator.add(acc, v)
+        return ret, ret is not v and (owned or ret is not acc)
 
     def _agg(self, target, tree):
         if self not in tree:
             tree[self] = self.init()
-        tree[self] = self.op(tree[self], target)
+        if self.op is not operator.iadd:
+            tree[self] = self.op(tree[self], target)
+        else:
+            owned_key = (Fold, self)  # (see _fold)
+            tree[self], tree[owned_key] = self._iadd_owned(
+                tree[self], target, tree.get(owned_key, True))
         return tree[self]
 
     def __repr__(self):
